@@ -6,23 +6,23 @@ use super::*;
 use soroban_sdk::model::{self, any};
 use soroban_sdk::{Address, BytesN, Env, String, Symbol, Val, Vec};
 
-fn upgrader() -> Address {
+pub fn upgrader() -> Address {
     Address(5)
 }
-static mut PHASE: u8 = 0; // 0 old code, 1 code swapped (window open), 2 migrated
-static mut V_BEFORE: Option<String> = None;
-static mut V_AFTER: Option<String> = None;
-static mut UP_CALLS: u32 = 0;
-static mut UP_OK: bool = false;
-static mut UP_FAILS: bool = false;
-static mut MG_CALLS: u32 = 0;
-static mut MG_OK: bool = false;
-static mut MG_FAILS: bool = false;
-static mut VERSION_QUERIES: u32 = 0;
-static mut TARGET: u32 = 0;
-static mut EXPECT_HASH: [u8; 32] = [0; 32];
-static mut EXPECT_DATA: Option<Vec<Val>> = None;
-fn spec_version(_env: &Env, contract: &Address) -> String {
+pub static mut PHASE: u8 = 0; // 0 old code, 1 code swapped (window open), 2 migrated
+pub static mut V_BEFORE: Option<String> = None;
+pub static mut V_AFTER: Option<String> = None;
+pub static mut UP_CALLS: u32 = 0;
+pub static mut UP_OK: bool = false;
+pub static mut UP_FAILS: bool = false;
+pub static mut MG_CALLS: u32 = 0;
+pub static mut MG_OK: bool = false;
+pub static mut MG_FAILS: bool = false;
+pub static mut VERSION_QUERIES: u32 = 0;
+pub static mut TARGET: u32 = 0;
+pub static mut EXPECT_HASH: [u8; 32] = [0; 32];
+pub static mut EXPECT_DATA: Option<Vec<Val>> = None;
+pub fn spec_version(_env: &Env, contract: &Address) -> String {
     unsafe {
         VERSION_QUERIES += 1;
         if contract.0 != TARGET {
@@ -35,7 +35,7 @@ fn spec_version(_env: &Env, contract: &Address) -> String {
         }
     }
 }
-fn spec_upgrade(_env: &Env, contract: &Address, new_wasm_hash: &BytesN<32>) {
+pub fn spec_upgrade(_env: &Env, contract: &Address, new_wasm_hash: &BytesN<32>) {
     unsafe {
         UP_CALLS += 1;
         UP_OK = contract.0 == TARGET && new_wasm_hash.0 == EXPECT_HASH && PHASE == 0;
@@ -45,7 +45,7 @@ fn spec_upgrade(_env: &Env, contract: &Address, new_wasm_hash: &BytesN<32>) {
         PHASE = 1;
     }
 }
-fn spec_invoke(a: &Address, f: &Symbol, args: Vec<Val>) -> Val {
+pub fn spec_invoke(a: &Address, f: &Symbol, args: Vec<Val>) -> Val {
     unsafe {
         MG_CALLS += 1;
         MG_OK = a.0 == TARGET && *f == Symbol::short("migrate") && PHASE == 1
